@@ -18,6 +18,7 @@ Definition model_call c k defined n := call (rc_sentinel c) (reg_of c k) (cfg_of
 Definition model_call_id c k defined i := call_id (rc_sentinel c) (reg_of c k) (cfg_of defined) i.
 Definition model_count c k defined := get_count (rc_sentinel c) (model_names_arr c k defined).
 Definition model_get_name c k defined i := get_name (rc_sentinel c) (model_names_arr c k defined) i.
+Definition model_dispatch c defined n := dispatch c (cfg_of defined) n.
 Definition model_fixed c k := fixed_names (reg_of c k).
 Definition model_all_names c k := map snd (body (reg_of c k)).
 
